@@ -132,7 +132,7 @@ inline Verdict run_text(const RunFn &run, const std::string &text, bool *parsed 
     for (auto &part : split_cases(text)) {
         Case c;
         if (!Case::from_text(part, c)) { if (parsed) *parsed = false; v.ok = false; v.why = "unparsable case"; return v; }
-        CurrentScope scope(c);
+        CurrentScope scope(c, false);
         v = run(c);
     }
     return v;
